@@ -93,7 +93,13 @@ class _LocalDateTimeParseBucket(_ParseBucket[LocalDateTime]):
         if hour_24:
             if time != LocalTime.midnight:
                 return ParseResult._invalid_hour_24(text)
-            date = date.plus_days(1)
+            try:
+                date = date.plus_days(1)
+            except (OverflowError, ValueError):
+                # 24:00 on the last day of the calendar: the following day cannot be represented.
+                return ParseResult._for_invalid_value_post_parse(
+                    text, _TextErrorMessages.OVERALL_VALUE_OUT_OF_RANGE, LocalDateTime.__name__
+                )
 
         return ParseResult.for_value(date + time)
 
